@@ -140,6 +140,28 @@ else:
     work = [(s, sty, a, b) for s in subsets for sty in styles for a in algs for b in banners]
 work += [(sub, sty, algs[0], banners[0], nd) for sub in ((1024,), (2048, 3072), (512, 4096), (3072,)) for sty in styles for nd in (1, 3)]
 res = run_pool(one, work)
+def both(case):
+    # a server offering both group-exchange algorithms: each of them gets its size (the same moduli file serves both), in either order of offer
+    subset, style, order, banner = case
+    kexl = ['curve25519-sha256'] + (algs if order == 0 else list(reversed(algs)))
+    srv = F.Server(kexl, ['ssh-ed25519'], ['aes128-ctr'], ['hmac-sha2-256'], hostkeys={'ssh-ed25519': F.ed25519_blob()}, moduli=list(subset), select=style, banner=banner.encode() + b'\r\n')
+    st, out = F.run_main(['-n', '--skip-rate-test', 's.test'], F.FakeNet({'s.test': srv}))
+    model = F.Server(kexl, ['ssh-ed25519'], ['aes128-ctr'], ['hmac-sha2-256'], moduli=list(subset), select=style)
+    pos = [r for r in (model.choose_modulus(*p) for p in FIXED) if r]
+    want = min(pos) if pos else None
+    if want == 2048 and 'OpenSSH' in banner:
+        want = model.choose_modulus(*FOLLOW)
+    fails = []
+    for alg in algs:
+        line = kex_line(out, alg)
+        suffix = size_suffix(line, alg) if line else None
+        got = int(suffix.split('-bit')[0]) if suffix and suffix.endswith('-bit') else None
+        if st not in (0, 2, 3) or got != want:
+            fails.append({'input': {'class': 'size-both-algorithms', 'moduli': list(subset), 'style': style, 'offered': kexl, 'alg': alg, 'banner': banner}, 'got': {'status': st, 'reported': suffix}, 'want': want})
+    return fails
+work2 = [(sub, sty, o, b) for sub in ((1024,), (2048,), (2048, 4096), (3072,), (512, 8192), ()) for sty in styles for o in (0, 1) for b in banners]
+res += run_pool(both, work2)
+work = list(work) + work2
 failures, per = [], {}
 for fl in res:
     for f in fl:
